@@ -463,10 +463,14 @@ def main():
         broken.append({"what": "generator did not reach required branches (harness error)", "detail": missing})
 
     reported = set()
+    foreign = []
     def report(case, kind, extra):
         kf = finding_for(prop, case, findings) if case else None
         if kf:
-            line = "KNOWN-FINDING: property=%s %s" % (kf.get("property", prop), kf["what"])
+            if kf.get("property", prop) != prop:
+                foreign.append(kf.get("property"))   # reported by that property's own check
+                return
+            line = "KNOWN-FINDING: property=%s %s" % (prop, kf["what"])
             if line not in known_lines:
                 known_lines.append(line)
             return
@@ -522,6 +526,7 @@ def main():
         "wall_s": round(wall, 2),
         "violations": len(violations),
         "known_findings_hit": known_lines,
+        "cases_matching_findings_of_other_properties": len(foreign),
     }
     os.makedirs(os.path.join(VERIF, "evidence"), exist_ok=True)
     with open(os.path.join(VERIF, "evidence", "%s.json" % prop), "w") as f:
